@@ -808,6 +808,13 @@ func (e *c16env) eval(c c16case) c16verdict {
 	x, _ := e.memo.LoadOrStore(c.id(), &c16entry{})
 	en := x.(*c16entry)
 	en.once.Do(func() {
+		// the comparison code reads what a binary of the tree under test wrote: whatever that is, judging it
+		// must end in a verdict on the case, never in the death of the process
+		defer func() {
+			if p := recover(); p != nil {
+				en.v = c16verdict{Ran: true, Class: "harness", Desc: fmt.Sprintf("%s: the comparison with the reference panicked on what the command wrote: %v", c.id(), p)}
+			}
+		}()
 		switch c.Tool {
 		case "obigrep":
 			en.v = e.evalGrep(c)
@@ -1973,7 +1980,14 @@ func c16setup(r *verifkit.Result) (*c16env, error) {
 	hp := e.exec1(e.runs, "obigrep", []string{"--help"})
 	help := string(hp.stdout) + "\n" + string(hp.stderr)
 	if !strings.Contains(help, "--identifier|-I") {
-		return nil, fmt.Errorf("obigrep --help does not describe --identifier|-I: %.300s", help)
+		// the control run of the binary of the tree under test: a verdict on the tree, not a harness failure.
+		// The cases go on; what the help does not state about the case of a pattern stays unconstrained.
+		what := "help-does-not-describe-the-identifier-option"
+		if hp.timedOut {
+			what = "help-does-not-exit"
+		}
+		r.Violate("obigrep/control-run/"+what, fmt.Sprintf("obigrep --help (err %v) does not describe --identifier|-I: %.300s", hp.err, help),
+			c16case{Tool: "obigrep", CPU: 1, Batch: 1})
 	}
 	tvs := map[c16tv]string{c16T: "case insensitive", c16F: "case sensitive", c16U: "(not stated)"}
 	for _, o := range []string{"identifier", "definition", "sequence", "attribute"} {
@@ -2187,6 +2201,9 @@ func TestVerifC16(t *testing.T) {
 		}
 		cases = uniq
 	}
+	// breadth first: every tool, every option alone, every pair mode, both inputs (the cases with at most one
+	// atom) run before the pairs, triples and repeats, so that a run cut by its deadline has visited every class
+	sort.SliceStable(cases, func(i, j int) bool { return len(cases[i].Atoms) <= 1 && len(cases[j].Atoms) > 1 })
 	if f := os.Getenv("VERIF_C16_ONLY"); f != "" { // debugging aid: restrict to the cases whose id matches
 		re := regexp.MustCompile(f)
 		var sel []c16case
